@@ -381,6 +381,15 @@ StrLower(s) == PLower(s, 1)
 ZLimbs(a, w, n) == [i \in 1..n |-> POut(SFDiv(SFDiv(PIn(a), Mk(FALSE, PPow2(w * (i - 1))))[1],
                                               Mk(FALSE, PPow2(w)))[2])]
 
+(* middle product of limb vectors (mpn/generic/mulmid.c): a of m limbs, b of n limbs (w-bit limbs), m >= n >= 1:
+   sum over 0<=i<m, 0<=j<n, n-1 <= i+j <= m-1 of a_i b_j B^(i+j-n+1); for a fixed j the admissible a_i are the m-n+1 limbs of a from limb n-1-j *)
+RECURSIVE PMulMidFrom(_, _, _, _, _, _)
+PMulMidFrom(a, m, bl, n, w, j) ==
+   IF j = n THEN Mk(FALSE, <<>>)
+   ELSE SAdd(SMul(PIn(bl[j + 1]), SFDiv(SFDiv(PIn(a), Mk(FALSE, PPow2(w * (n - 1 - j))))[1], Mk(FALSE, PPow2(w * (m - n + 1))))[2]),
+             PMulMidFrom(a, m, bl, n, w, j + 1))
+ZMulMid(a, m, b, n, w) == POut(PMulMidFrom(a, m, ZLimbs(b, w, n), n, w, 0))
+
 ----------------------------------------------------------------------------
 (* derived operators (never overridden) *)
 ZEq(a, b) == a = b                       \* numerals are canonical
